@@ -986,6 +986,10 @@ pub fn install_panic_hook() {
             "<non-string panic>".to_string()
         };
         let loc = info.location().map(|l| format!("{}:{}", l.file(), l.line())).unwrap_or_default();
+        if msg.starts_with("unsafe precondition") || std::env::var_os("N2V_PANIC_VERBOSE").is_some() {
+            // the process is about to abort: this is the only chance to say why
+            eprintln!("NON-UNWINDING PANIC: {} @ {}", msg, loc);
+        }
         LAST_PANIC.with(|p| *p.borrow_mut() = Some(format!("{} @ {}", msg, loc)));
     }));
 }
